@@ -118,6 +118,23 @@ type FnInfo struct {
 
 var fnTable = map[model.FeatureTypeType][]FnInfo{}
 var fnByName = map[model.FunctionType]FnInfo{}
+var cmdFieldByFn = map[model.FunctionType]string{}
+
+// SetCmdData puts data (a pointer to the function's data type) into the cmd member that carries
+// function fn on the wire.
+//
+//go:norace
+func SetCmdData(cmd *model.CmdType, fn model.FunctionType, data any) {
+	name, ok := cmdFieldByFn[fn]
+	if !ok || data == nil {
+		return
+	}
+	f := reflect.ValueOf(cmd).Elem().FieldByName(name)
+	dv := reflect.ValueOf(data)
+	if f.IsValid() && dv.Type().AssignableTo(f.Type()) {
+		f.Set(dv)
+	}
+}
 
 var allFeatureTypes = []model.FeatureTypeType{
 	model.FeatureTypeTypeActuatorLevel, model.FeatureTypeTypeActuatorSwitch, model.FeatureTypeTypeAlarm, model.FeatureTypeTypeDataTunneling,
@@ -136,9 +153,11 @@ func init() {
 	fieldFor := map[model.FunctionType]reflect.Type{}
 	for i := 0; i < cmdT.NumField(); i++ {
 		sf := cmdT.Field(i)
-		tags := model.EEBusTags(sf)
-		if fn, ok := tags[model.EEBusTagFunction]; ok && sf.Type.Kind() == reflect.Ptr {
-			fieldFor[model.FunctionType(fn)] = sf.Type.Elem()
+		// the data member of a function carries the function's name on the wire (not taken from
+		// the implementation's eebus tags, which are part of what is checked)
+		if sf.Type.Kind() == reflect.Ptr && sf.Type.Elem().Kind() == reflect.Struct && sf.Name != "Function" {
+			fieldFor[model.FunctionType(jsonName(sf))] = sf.Type.Elem()
+			cmdFieldByFn[model.FunctionType(jsonName(sf))] = sf.Name
 		}
 	}
 	updater := reflect.TypeOf((*model.Updater)(nil)).Elem()
